@@ -589,6 +589,26 @@ def _run_lsq(case):
                                 _bump(cl, "lstsq:negative-component")
                             if x.any():
                                 nontriv = True
+                            # the same problem with the (integer-valued) geometry matrix and measurements passed as integer arrays:
+                            # the three pure-python solvers must not depend on the dtype the numbers arrive in
+                            if tname.startswith("second") or targ is None:
+                                Wi, bi = np.array(Wl, dtype=np.int64), np.array([int(v) for v in b], dtype=np.int64)
+                                for sname, call in (("lstsq", lambda: S["lstsq"](Wi, bi, alpha=alpha, tikhonov_matrix=targ)[0]),
+                                                    ("nnls", lambda: S["nnls"](Wi, bi, alpha=alpha, tikhonov_matrix=targ)[0])):
+                                    ncalls += 1
+                                    try:
+                                        xi = np.asarray(call(), dtype=float)
+                                    except Exception as e:  # noqa
+                                        _V(viol, "%s:integer-dtype-input:raises:%s" % (sname, type(e).__name__), "%s%s with int64 W and b" % (sname, desc), "same result as with float64 input", "%s: %s" % (type(e).__name__, e))
+                                        continue
+                                    _bump(cl, "lsq:integer-dtype-input")
+                                    if sname == "lstsq":
+                                        if not np.allclose(xi, x, rtol=1e-9, atol=1e-12 * (1.0 + float(np.abs(x).max()))):
+                                            _V(viol, "lstsq:integer-dtype-input:differs-from-float64-input", "invert_regularised_lstsq%s with int64 W and b" % desc, x.tolist(), xi.tolist())
+                                    else:
+                                        badi = cert.kkt_nnls(C, d, xi)
+                                        if badi is not None and not _scipy_nnls_itself_wrong(C, d, float(b.max()), xi, cert):
+                                            _V(viol, "nnls:integer-dtype-input:%s" % badi[0], "invert_regularised_nnls%s with int64 W and b: not a minimiser" % desc, "KKT", badi[1])
         if not np.array_equal(b, b_orig):
             _V(viol, "lsq:input-mutated", "measurement vector modified by a call (harness integrity)", b_orig, b)
         if nontriv:
